@@ -301,6 +301,11 @@ bool Node::Stat(DiskInterface* disk_interface, string* err) {
   return true;
 }
 
+void Node::RemoveOutEdge(Edge* edge) {
+  out_edges_.erase(remove(out_edges_.begin(), out_edges_.end(), edge),
+                   out_edges_.end());
+}
+
 void Node::UpdatePhonyMtime(TimeStamp mtime) {
   if (!exists()) {
     mtime_ = std::max(mtime_, mtime);
